@@ -1,6 +1,6 @@
 (* GENERATED ONCE by tools/pin.py from Properties/C13.v and committed: the pinned statements. *)
 From VF.Properties Require C13.
-From VF Require Import Base Gen_Errors ErrSpec Status Status_proofs.
+From VF Require Import Base Gen_Errors ErrSpec Status Status_proofs Contrib ContribSpec Contrib_proofs.
 Open Scope N_scope.
 
 
@@ -31,3 +31,9 @@ Check (VF.Properties.C13.C13_syst_err_all : forall mav d,
   end).
 Check (VF.Properties.C13.C13_esr_read_clears : forall mav d,
   sop_step mav d SRdEsr = (set_esr d 0, Some [RNum (esr d)], None)).
+Check (VF.Properties.C13.C13_full_stack_refines : forall msgs mav us,
+  forallb (fun m => forallb renderable (snd m)) msgs = true -> forallb renderable us = true ->
+  dev_message (session_ops dev_init msgs) mav (units_text us) = Val (op_message (session_ops dev_init msgs) mav us)).
+Check (VF.Properties.C13.C13_full_stack_refines_iff : forall d,
+  (forall mav us, forallb renderable us = true -> dev_message d mav (units_text us) = Val (op_message d mav us))
+  <-> queue_printable d = true).
